@@ -87,6 +87,12 @@ func cmdRun(pattern string, funcs []string) int {
 			fmt.Sscan(v, &b.WallS)
 		}
 		w := NewWorld(ld.pi, b)
+		if fp := os.Getenv("GOSYM_FORCE"); fp != "" {
+			var rr replayRec
+			if bb, err := os.ReadFile(fp); err == nil && json.Unmarshal(bb, &rr) == nil {
+				w.forced = rr.Vector
+			}
+		}
 		w.trace = os.Getenv("GOSYM_TRACE") != ""
 		res := w.Explore(Harness{Pkg: pkgPath, Func: f}, map[string]bool{})
 		printResult(res)
